@@ -2,7 +2,7 @@
 From Coq Require Extraction.
 From Coq Require Import ExtrOcamlBasic.
 From Coq Require Import NArith ZArith List.
-From PTQ Require Import Base.Bytes Base.Result Base.Bits Base.Sha256 Spec.Crc Model.Crc Model.Cell Spec.CellRepr Model.Inst Model.Builder Model.Typed Spec.TlbPrim Spec.TlbVal Model.Hashmap Spec.Hashmap Model.Address Model.Signatures Model.Adnl Model.Boc Spec.BocFormat Model.Proof Model.Dtree Gen.TlbImpl Model.Message Spec.MessageSpec Model.VmStack Model.Cost.
+From PTQ Require Import Base.Bytes Base.Result Base.Bits Base.Sha256 Spec.Crc Model.Crc Model.Cell Spec.CellRepr Model.Inst Model.Builder Model.Typed Spec.TlbPrim Spec.TlbVal Model.Hashmap Spec.Hashmap Model.Address Model.Signatures Model.Adnl Model.Boc Spec.BocFormat Model.Proof Model.Dtree Gen.TlbImpl Model.Message Spec.MessageSpec Model.VmStack Model.Cost Model.Heap.
 
 Extraction "Extract/model.ml"
   N.add N.mul N.of_nat N.to_nat Z.add Z.mul Z.opp Z.of_N Z.to_N
@@ -25,4 +25,5 @@ Extraction "Extract/model.ml"
   s_dec_message s_dec_state_init s_dec_currency s_dec_hash_update
   vmval vmcont ser_stack dec_stack
   order_visits
+  op heap run_ops obj_view view
   order to_boc deserialize deserialize_boc_header s_parse s_decode s_all_cells nodup_trees tree_eqb k_tree.
